@@ -373,6 +373,36 @@ def field_cases(build):
         cases.append((f'q:{QH(a)} q:{QH(b)} feq', str(a % Q == b % Q).lower(), f'{a} == {b}'))
     return cases
 
+def kernel_cases(build, obs=()):
+    """fiat kernel candidates (operands in the Montgomery domain) re-expressed through the public field API of the 32-bit build"""
+    from .poly import FIELDS
+    cases = []
+    for o in obs:
+        m = o.model or {}
+        if m.get('kind') != 'kernel' or 'a' not in m: continue
+        F = {'fq': 'Fq', 'fr': 'Fr', 'fp': 'Fp'}[m['field']]; f = F[1].lower(); p_ = FIELDS[F]; nb = 48 if F == 'Fp' else 32
+        Rm = 2 ** (8 * nb); Ri = pow(Rm, -1, p_)
+        push = lambda v: f'{f}.push:{le(v % p_, nb)}'
+        out = lambda v: f'{f}:{le(v % p_, nb)}'
+        a, b, fn = m['a'], m.get('b', 0), m['fn']
+        x, y = a * Ri % p_, b * Ri % p_
+        if fn == 'add':
+            cases.append((f'{push(x)} {push(y)} {f}.add', out(x + y), f'{F} fiat add on Montgomery operands {a}, {b}'))
+            cases.append((f'{push(x)} {push(y)} {f}.add {push(x + y)} {f}.eq', 'true', f'{F}: {x} + {y} == its canonical sum (limb-level equality)'))
+        elif fn == 'sub':
+            cases.append((f'{push(x)} {push(y)} {f}.sub', out(x - y), f'{F} fiat sub on Montgomery operands {a}, {b}'))
+            cases.append((f'{push(x)} {push(y)} {f}.sub {push(x - y)} {f}.eq', 'true', f'{F}: {x} - {y} == its canonical difference (limb-level equality)'))
+        elif fn == 'opp':
+            cases.append((f'{push(x)} {f}.neg', out(-x), f'{F} fiat opp on Montgomery operand {a}'))
+            cases.append((f'{push(x)} {f}.neg {push(-x)} {f}.eq', 'true', f'{F}: -({x}) == {(-x) % p_} (limb-level equality of the fiat opp result)'))
+        elif fn == 'mul': cases.append((f'{push(x)} {push(y)} {f}.mul', out(x * y), f'{F} fiat mul on Montgomery operands {a}, {b}'))
+        elif fn == 'square': cases.append((f'{push(x)} {f}.sq', out(x * x), f'{F} fiat square on Montgomery operand {a}'))
+        elif fn == 'from_montgomery': cases.append((f'{push(x)} {push(0)} {f}.add', out(x), f'{F} fiat from_montgomery on {a} (serialising the element {x})'))
+        elif fn == 'to_montgomery':
+            if a < p_: cases.append((f'{push(a)} {push(0)} {f}.add', out(a), f'{F} fiat to_montgomery on {a}'))
+            cases.append((f'modorder:{a.to_bytes(nb, "little").hex()}', ' '.join(le(int.from_bytes(a.to_bytes(nb, "little"), "little") % FIELDS[G], 48 if G == 'Fp' else 32) for G in ('Fq', 'Fr', 'Fp')), f'from_le_bytes_mod_order feeding {a} to {F} to_montgomery'))
+    return cases
+
 def conversion_cases(build):
     from .poly import FIELDS
     cases = []
@@ -504,9 +534,9 @@ BATTERIES = {
     'C13': lambda b: r1cs_honest_cases(b),
     'C14': r1cs_adversarial_cases,
     'C16': lambda b: bls_cases(b),
-    'C10': lambda b: field_cases(b),
-    'C11': lambda b: conversion_cases(b),
-    'C12': lambda b: decode_cases(b) + encode_cases(b)[:300] + elligator_cases(b) + group_cases(b)[:200] + smul_cases(b)[:150] + coherence_cases(b)[:150] + const_cases(b) + field_cases(b)[:400] + conversion_cases(b),
+    'C10': lambda b, obs=(): kernel_cases(b, obs) + field_cases(b),
+    'C11': lambda b, obs=(): kernel_cases(b, obs) + conversion_cases(b),
+    'C12': lambda b, obs=(): kernel_cases(b, obs) + decode_cases(b) + encode_cases(b)[:300] + elligator_cases(b) + group_cases(b)[:200] + smul_cases(b)[:150] + coherence_cases(b)[:150] + const_cases(b) + field_cases(b)[:400] + conversion_cases(b),
     'C01': lambda b: roundtrip_cases(b),
     'C09': sqrt_cases,
     'C06': lambda b: constructor_cases(b),
